@@ -63,6 +63,62 @@ def s_vlog(ex, st, fr, text, args):
     return UNIT
 
 
+def s_vlog_str(ex, st, fr, text, args):
+    st.events.append((args[0], args[1], args[2], args[3]))
+    return UNIT
+
+
+def s_chars(ex, st, fr, text, args):
+    """str::chars of the harness's symbolic string: the same character sequence as the iterator input"""
+    v = args[0]
+    if isinstance(v, Ref):
+        v = ex.deref(st, v)
+    if isinstance(v, Native) and v.tag == 'symstr':
+        return Native('input', (0,))
+    raise Inconclusive('chars() of %r' % (v,))
+
+
+def s_is_ascii(ex, st, fr, text, args):
+    """str::is_ascii of the symbolic input string"""
+    v = args[0]
+    if isinstance(v, Ref):
+        v = ex.deref(st, v)
+    if not (isinstance(v, Native) and v.tag == 'symstr'):
+        raise Inconclusive('is_ascii on %r' % (v,))
+    chars, ln = st.aux['input']
+    terms = []
+    for j, c in enumerate(chars):
+        if c.conc() and ln.conc():
+            if j < ln.v and c.v >= 128:
+                return S(1, 0)
+        else:
+            terms.append(z3.Or(zi(ln) <= j, zi(c) < 128))
+    if not terms:
+        return S(1, 1)
+    return S(1, z3.And(*terms))
+
+
+def s_str_index(ex, st, fr, text, args):
+    """<str as Index<Range<usize>>>::index on the symbolic input string: panics unless start <= end and both
+    are char boundaries of the string (byte offsets of c0.. relative to the symbolic start location)"""
+    v = args[0]
+    if isinstance(v, Ref):
+        v = ex.deref(st, v)
+    if not (isinstance(v, Native) and v.tag == 'symstr'):
+        raise Inconclusive('str index on %r' % (v,))
+    rg = args[1]
+    a, b = rg.f[0], rg.f[1]
+    bounds = st.aux.get('str_bounds')
+    if bounds is None:
+        raise Inconclusive('no string bounds')
+    za, zb = zi(a), zi(b)
+    ona = z3.Or(*[z3.And(za == t, ok) for t, ok in bounds])
+    onb = z3.Or(*[z3.And(zb == t, ok) for t, ok in bounds])
+    good = z3.And(za <= zb, ona, onb)
+    return Fork([(good, lambda s2: Native('strslice', (a, b))),
+                 (z3.Not(good), lambda s2: PanicResult('byte index is not a char boundary / out of range in match_()'))])
+
+
 def s_decide(ex, st, fr, text, args):
     n = args[1]
     if not n.conc():
@@ -96,6 +152,10 @@ MAX_DYN = [2]
 
 HARNESS_SUMMARIES = [
     (re.compile(r'(^|::)vlog$'), s_vlog),
+    (re.compile(r'(^|::)vlog_str$'), s_vlog_str),
+    (re.compile(r'core::str::<impl str>::chars$'), s_chars),
+    (re.compile(r'core::str::<impl str>::is_ascii$'), s_is_ascii),
+    (re.compile(r'^<str as (std::ops::)?Index<(std::ops::)?Range<usize>>>::index$'), s_str_index),
     (re.compile(r'(^|::)St::decide$|^rt::<impl at [^>]*>::decide$|St>::decide$'), s_decide),
 ]
 
@@ -273,8 +333,21 @@ class StepHarness:
             st.aux['input'] = ([S(32, c) for c in cps], S(64, len(cps)))
             st.aux['script'] = list(script)
             ust = A((Native('script', ()), S(64, 0), S(32, err), S(32, 0x5e71)))
-        it = Native('input', (0,))
-        st, lx = self.one(ex.call_fn(st, self.fn(self.L + '_', 'new_from_iter_with_state'), [it, ust]), 'constructor')
+        if self.d.str_input:
+            st.root()['instr'] = Native('symstr', ())
+            st, lx = self.one(ex.call_fn(st, self.fn(self.L + '_', 'new_with_state'), [Ref(0, 'instr'), ust]), 'constructor')
+            if symbolic:
+                st.aux['str_bounds'] = [(self.loc_at(k)[2], self.len >= k) for k in range(self.N + 1)]
+            else:
+                cps_ = concrete[0]
+                offs = [0]
+                for cp in cps_:
+                    offs.append(offs[-1] + (1 if cp < 0x80 else 2 if cp < 0x800 else 3 if cp < 0x10000 else 4))
+                st.aux['str_bounds'] = [(z3.IntVal(o), True) for o in offs]
+                st.aux['str_offsets'] = offs
+        else:
+            it = Native('input', (0,))
+            st, lx = self.one(ex.call_fn(st, self.fn(self.L + '_', 'new_from_iter_with_state'), [it, ust]), 'constructor')
         st.root()['lx'] = lx
         if rho != 0:
             st, _ = self.one(ex.call_fn(st, self.fn(self.L + '_', 'switch'), [Ref(0, 'lx'), E(self.names[rho])]), 'switch')
@@ -427,9 +500,9 @@ class StepHarness:
         involved = set(info.get('rules', []))
         if got[0] == 'tok' and got[1].conc():
             involved.add(got[1].v)
-        for (g, _, _) in st.events:
-            if g.conc():
-                involved.add(g.v)
+        for ev_ in st.events:
+            if ev_[0].conc():
+                involved.add(ev_[0].v)
         inv_rules = [rule_by_gid[g] for g in involved if g in rule_by_gid]
 
         def ends_eof(r):
@@ -485,7 +558,7 @@ class StepHarness:
                 asp.add('actions')
             # which other statements does the wrong item break?
             evs_ = st.events
-            if len(evs_) != len(events) or any((not g.conc()) or g.v != e_[0] for (g, _, _), e_ in zip(evs_, events)):
+            if len(evs_) != len(events) or any((not x[0].conc()) or x[0].v != e_[0] for x, e_ in zip(evs_, events)):
                 asp.add('actions')          # an action ran (or did not run) for a match the reference does not select
             if got[0] == 'tok':
                 # a token that does not start where this call's match started overlaps / reorders lexemes
@@ -517,7 +590,12 @@ class StepHarness:
         if len(evs) != len(events):
             mm({'actions'} | base_aspects, 'action invocations: implementation %d, reference %d' % (len(evs), len(events)))
         else:
-            for (g, locs, peek), (gid, ms_, e_) in zip(evs, events):
+            for ev_, (gid, ms_, e_) in zip(evs, events):
+                g, locs, peek = ev_[0], ev_[1], ev_[2]
+                if len(ev_) > 3:
+                    sl = ev_[3]
+                    sym_check({'loc', 'actions'}, 'match_() does not start at the lexeme start byte', zi(sl.p[0]) != self.loc_at(ms_, syms)[2])
+                    sym_check({'loc', 'actions'}, 'match_() does not end at the lexeme end byte', zi(sl.p[1]) != self.loc_at(e_, syms)[2])
                 if not g.conc() or g.v != gid:
                     mm({'actions', 'match'}, 'action of rule %s ran, reference runs rule %d' % (g.v, gid))
                     break
@@ -640,9 +718,14 @@ def concrete_run(h, cps, start_rho, prepeek, script, err, ncalls, widths):
             kind, st, val = res[0]
             if kind == 'panic':
                 return ['PANIC']
-            for g, locs, peek in st.events:
-                lines.append('A %d %s %s %s' % (g.v, fmt_loc_value(locs.f[0]), fmt_loc_value(locs.f[1]),
-                                                '-' if peek.v == 'None' else str(peek.f[0].v)))
+            for ev_ in st.events:
+                g, locs, peek = ev_[0], ev_[1], ev_[2]
+                l = 'A %d %s %s %s' % (g.v, fmt_loc_value(locs.f[0]), fmt_loc_value(locs.f[1]), '-' if peek.v == 'None' else str(peek.f[0].v))
+                if len(ev_) > 3:
+                    offs = st.aux['str_offsets']
+                    a_, b_ = ev_[3].p[0].v, ev_[3].p[1].v
+                    l += ' M' + '.'.join(str(x) for x in cps[offs.index(a_):offs.index(b_)])
+                lines.append(l)
             got = h.item_shape(val)
             if got[0] == 'none':
                 lines.append('I none')
